@@ -274,6 +274,10 @@ func runC10(c *Ctx) {
 		// (Labels: the library treats every owner whose text starts with "*" as a wildcard, also "*li.example."; the
 		// property does not fix the Labels value, so only the RFC case of a whole "*" label is compared; observation O6)
 		labOK := int(sig.Labels) == lab || (owner[0][0] == '*' && len(owner[0]) > 1)
+		if !(owner[0][0] == '*' && len(owner[0]) > 1) {
+			// the model of the Labels computation (DnsModel/Canon.lean signLabels; theorem sign_owner_exact), on its domain
+			c.Op("signed-octets", "sign.labels "+labs(owner), fmt.Sprint(sig.Labels), true)
+		}
 		c.Pred("signed-octets", "rrsig-fields", in, labOK && sig.TypeCovered == set[0].Header().Rrtype && sig.Hdr.Class == 1 && sig.Hdr.Rrtype == dns.TypeRRSIG,
 			fmt.Sprint(sig.Labels, sig.TypeCovered), fmt.Sprint(lab), true)
 		// (b) invariances of the signed octets: order, repeated records, TTLs, owner case, RDATA name case
